@@ -108,6 +108,11 @@ class Chooser:
         self.cost += costs[c]
         return c
 
+    @property
+    def replaying(self):
+        """True while the next choice point still lies inside the recorded prefix."""
+        return len(self.choices) < len(self.prefix)
+
     # convenience
     def pick(self, seq, label="", key=None):
         return seq[self.choose(len(seq), label, key=key)]
